@@ -91,6 +91,17 @@ func VerifH_SYS_C16() {
 		defer verifUnlock()
 		for ci := range b.conns {
 			checkC16Conn(b, ci, discOn)
+			// a connection that met no fault, whose peer kept answering and that was not disconnected stays in use
+			faulted := false
+			for _, at := range b.attempts {
+				if at.conn == ci && at.outcome != 'o' {
+					faulted = true
+				}
+			}
+			if b.accepted[ci] && !faulted && b.silentAt[ci] < 0 && ci != discOn && !b.conns[ci].eof {
+				verifReach("healthy-connection")
+				verifAssert(!b.conns[ci].closed, "C13.healthy_connection_kept")
+			}
 			// the reported error is what really ended the connection: a ping timeout is reported only for a
 			// connection whose peer actually stopped answering (cuts and write errors are not ping timeouts)
 			if e := b.clients[ci].Err(); e != nil && errors.Is(e, ErrPingTimeout) {
@@ -129,8 +140,17 @@ func VerifH_SYS_C16() {
 		}
 		_ = healthyErrSeen
 	})
-	_, connErr = cli.Connect(context.Background(), "cid", WithCleanSession(false))
-	verifEvent("app:connected")
+	// the context given to Connect is either the background context or one that the application cancels as
+	// soon as Connect has returned (`defer cancel()`): the established connection and its keep-alive do not depend on it
+	cctx, ccancel := context.WithCancel(context.Background())
+	_, connErr = cli.Connect(cctx, "cid", WithCleanSession(false))
+	if verifChoice("cancelctx", 2) == 1 {
+		ccancel()
+		verifEvent("app:connected,ctx-cancelled")
+	} else {
+		verifEvent("app:connected")
+	}
+	_ = ccancel
 	_ = cli.Publish(context.Background(), &Message{Topic: "t", QoS: QoS1, Payload: []byte{1}})
 	if disconnect {
 		verifPause()
